@@ -24,7 +24,8 @@ LEVEL = "fault_enumeration"
 RULE = ("part A: {h1, h1tls, h2, h2pk, fwd} x {GET, POST streamed} x {1, 3 concurrent callers} x retries in {0,2} x "
         "flavours x (every network op x every documented fault kind); part B: HTTP/2 with 3 concurrent requests x "
         "GOAWAY sent at (head|end of request n) x last-stream-id in {0, previous, this, all} x {GET, POST bytes, POST "
-        "iterator, POST 150 kB (beyond the initial window, so the uploader itself reads the GOAWAY)} x seeded op latencies; "
+        "iterator, POST 150 kB (beyond the initial window, so the uploader itself reads the GOAWAY; also with no upload credit at all on the "
+        "first connection, so every upload is in its flow-control wait when the GOAWAY arrives)} x seeded op latencies; "
         "part C: HTTP/1.1 over {direct, TLS, maybe-h2, tunnel, SOCKS}: while a streamed POST body is still being written the "
         "server {answers early, answers early and closes, closes without answering} x new / kept-alive connection x write "
         "latency x retries; distinct+non-trivial = (type, shape, callers, retries, flavour, fault kind, op kind, trace phase) "
@@ -210,14 +211,18 @@ def run_part_b(case):
             for nreq in (0, 1, 2):
                 for last in (0, "prev", "this", 2 ** 31 - 1):
                   for lat_seed in case.get("lat_seeds", [None]):
+                      if case.get("win") == "hold-until-goaway" and when == "end":
+                          continue  # no upload can end before the GOAWAY that it is waiting for
                       script = {"data_chunk": 1000, "actions": [{"when": (when, nreq), "do": "goaway", "last": last}]}
+                      if case.get("win"):
+                          script["win"] = case["win"]
                       sc, outcomes, info, run = await run_many(flavor, case["ctype"], shape, 3, 0, h2_script=script,
                                                                lat_seed=lat_seed)
                       cnt["runs"] += 1
                       cnt["goaway_runs"] += 1
                       ctx = {"case": case, "goaway": {"when": when, "n": nreq, "last": last},
                              "outcomes": {k: repr(o) for k, o in outcomes.items()}}
-                      sigs.add(f"B|{flavor}|{shape}|{when}|{nreq}|{last}|{lat_seed}")
+                      sigs.add(f"B|{flavor}|{shape}|{when}|{nreq}|{last}|{lat_seed}|{case.get('win')}")
                       if run.kind == "hang":
                           v("goaway-hang", "callers hang after GOAWAY", ctx)
                           continue
@@ -226,7 +231,22 @@ def run_part_b(case):
                       for o in sc.origins:
                           for a in o.anomalies:
                               if a["kind"] == "h2-ledger:stream-opened-after-goaway":
-                                  v("stream-opened-after-goaway", repr(a), ctx)
+                                  # the HEADERS reached the wire after the client had been handed the GOAWAY. That is a
+                                  # violation if the client *opened* the stream after that moment (trace event
+                                  # send_request_headers.started); a stream opened before it, whose HEADERS were still
+                                  # waiting for the write lock, is an unavoidable race
+                                  opened_knowing = False
+                                  known = False
+                                  for ph in sc.phase.values():
+                                      for rec in ph.get("h2_open", []):
+                                          if rec["stream"] == a.get("stream"):
+                                              known = True
+                                              if a.get("tr") in rec["goaway_consumed_on"]:
+                                                  opened_knowing = True
+                                  if opened_knowing or not known:
+                                      v("stream-opened-after-goaway", repr(a), ctx)
+                                  else:
+                                      cnt["goaway_write_races_excused"] = cnt.get("goaway_write_races_excused", 0) + 1
                               elif a["kind"].startswith("h2-ledger:") or a["kind"] == "h2-server-role-error":
                                   v("goaway-protocol-anomaly:" + a["kind"], repr(a), ctx)
                       for tok, reqs in heads.items():
@@ -354,6 +374,10 @@ def plan(tier, seed):
                 cases.append({"part": "B", "ctype": ctype, "shape": shape, "flavor": flavor, "tier": tier,
                               "seed": r.randrange(1 << 30),
                               "lat_seeds": [None, 1, 2] if tier == "quick" else [None] + list(range(1, 12))})
+                if shape == "post-big":
+                    # uploads that are sitting in their flow-control wait when the GOAWAY arrives: the server gives no
+                    # upload credit on the first connection
+                    cases.append(dict(cases[-1], win="hold-until-goaway", seed=r.randrange(1 << 30)))
     for ctype in ("h1", "h1tls", "maybe-h2", "tun", "socks"):
         for mode in ("early", "early-close", "close-no-response"):
             for flavor in ("asyncio", "trio", "sync"):
